@@ -1061,3 +1061,65 @@ func dnsTagKind(f wireField) string {
 	}
 	return t
 }
+
+// c02PrintBounds: "whatever it accepts can then be printed without panicking", the index part: every index and
+// slice expression on text and buffers in the functions the String methods reach is entailed in bounds. Functions that
+// the packers and the length walk reach as well (OPT.String packs unknown options to print them) belong to the
+// re-pack clause and are left out here; they are listed in the evidence.
+func c02PrintBounds(c *Ctx, r *Report, rule string) {
+	r.rule(rule, 60, "every index / slice on text and buffers in the functions reachable from the String methods (and not from the packers) is entailed in bounds")
+	e := newAliasEngine(c)
+	var entries, packEntries []*ssa.Function
+	var names []string
+	for name := range c.decls {
+		names = append(names, name)
+	}
+	sort.Strings(names)
+	for _, name := range names {
+		if strings.HasSuffix(name, ".String") {
+			if f := c.ssaFunc(name); f != nil {
+				entries = append(entries, f)
+			}
+		}
+	}
+	for _, n := range []string{"Msg.PackBuffer", "PackRR", "Msg.Len", "Len", "PackDomainName"} {
+		if f := c.ssaFunc(n); f != nil {
+			packEntries = append(packEntries, f)
+		}
+	}
+	scope := e.reachable(entries)
+	packScope := e.reachable(packEntries)
+	var fns []*ssa.Function
+	var left []string
+	for f := range scope {
+		if packScope[f] {
+			left = append(left, fnDisplay(f))
+			continue
+		}
+		fns = append(fns, f)
+	}
+	sort.Strings(left)
+	r.extra["print_scope_left_to_the_repack_clause"] = left
+	sort.Slice(fns, func(i, j int) bool { return fnDisplay(fns[i]) < fnDisplay(fns[j]) })
+	saved := withStrings
+	withStrings = true
+	defer func() { withStrings = saved }()
+	bp := newBoundsProver(c, e, scope)
+	counter := map[string]int{}
+	for _, f := range fns {
+		sites := boundSites(f)
+		if len(sites) > 0 {
+			r.fn(fnDisplay(f))
+		}
+		for _, s := range sites {
+			bp.prove(s)
+			base := fmt.Sprintf("%s:%s", fnDisplay(f), s.describe())
+			counter[base]++
+			construct := base
+			if counter[base] > 1 {
+				construct = fmt.Sprintf("%s#%d", base, counter[base])
+			}
+			r.check(s.Proven, rule, construct, c.pos(s.Instr.Pos()), s.Why, "the access %s is not covered by a dominating test (%s): printing a record the decoder accepted can panic", s.describe(), s.Why)
+		}
+	}
+}
